@@ -2,7 +2,7 @@
 """writes /verif/MANIFEST.json from the claims table below"""
 import json, subprocess
 ids = [json.loads(l)['id'] for l in open('/verif/properties.jsonl')]
-LVL = "Machine-checked Lean 4 theorems about a hand-written executable model of LockableMapImpl, proved for all keys, values, handles, schedules and histories (induction over atomic actions, no bound); the model is tied to /repo's current source on every run by a checked correspondence: the real containers and the compiled model execute the same generated and corpus histories and their replies and full state snapshots are diffed after every request; an independent oracle evaluates the property on the implementation's trace to produce concrete failing inputs."
+LVL = "Machine-checked Lean 4 theorems about a hand-written executable model of LockableMapImpl, proved for all keys, values, handles, schedules and histories (induction over atomic actions, no bound); the model is tied to /repo's current source on every run by a checked correspondence: the real containers and the compiled model execute the same generated and corpus histories and their replies and full state snapshots are diffed after every request; an independent oracle evaluates the property on the implementation's trace to produce concrete failing inputs. Random histories, all histories up to depth 4 over a small alphabet, scheduled thread interleavings (hooked real threads, random and exhaustive schedules) and free-running stress runs support the tie and the search for failing inputs; none of them stands in for a theorem."
 NOTE = "Trusted: Lean kernel (axioms per theorem in the evidence: subset of propext, Classical.choice, Quot.sound), the hand-written model and statements in lean/Lockable/Props, the harness/driver/oracle, tokio's mutex as FIFO with direct hand-off, Arc::strong_count as number of live handles, atomicity of critical sections (DESIGN.md sections 3.3 and 7). The correspondence samples; it is not a proof about the Rust code."
 CLAIMS = {
  'C01': ('§9 C01', 'Lean 4 proof: inductive invariant over all atomic actions (Theorem A) ⇒ at most one guard per key in every reachable state; history form via the linearisation theorem (guard lifetimes on a key are disjoint in every run); checked model/implementation correspondence (sequential + scheduled threads)'),
